@@ -252,10 +252,18 @@ class Model:
             return self._transparent[1]
         out = set()
         cands = {}
+        exported = set()
+        init = self.modules.get("__init__")
+        if init is not None:
+            exported.update(orig or local for local, (_mod, orig) in init.imports.items())
+            exported.update(init.imports)
         for mi in self.modules.values():
             for fi in mi.functions.values():
                 private = fi.name.startswith("_") and not (fi.name.startswith("__") and fi.name.endswith("__"))
-                if private and self.inlinable(fi):
+                # a module-level function of a private module that the package does not re-export is internal as well
+                internal = fi.cls is None and mi.name.startswith("_") and fi.name not in exported and \
+                    not (fi.name.startswith("__") and fi.name.endswith("__"))
+                if (private or internal) and self.inlinable(fi):
                     cands.setdefault(fi.name, []).append(fi)
         if cands:
             calls = {n: 0 for n in cands}
